@@ -253,7 +253,8 @@ Definition run_c07 (v : val) : val :=
    1: a key reached the target that no allow-list entry, renamed, produces from a client-supplied key
    2: grpc-timeout among the outgoing keys
    3: a (key,value) reached the client that is not an allow-listed target header/trailer (with prefix)
-   4: allow-list empty but something crossed *)
+   4: allow-list empty but something crossed
+   5: a value reached the target under a -bin key that is not the base64 decoding of a client-supplied value *)
 Definition supplied (i : c07_input) (k : bytes) : bool :=
   existsb (fun kv => fold_eqb (fst kv) k) (i_headers i) ||
   match i_entry i with
@@ -268,11 +269,19 @@ Definition resp_pair_ok (allow : list bytes) (prefix : bytes) (m : md) (kv : byt
   existsb (fun k => bytes_eqb (fst kv) (lower (prefix ++ k)) &&
                     existsb (bytes_eqb (snd kv)) (md_get k m)) allow.
 
+(* a value that reaches the target under a -bin key is the base64 decoding of something the client sent, never the raw text *)
+Definition bin_values_decoded (i : c07_input) (kv : bytes * list bytes) : bool :=
+  if has_bin_suffix (fst kv)
+  then forallb (fun v => existsb (fun x => match decode_bin_header (snd x) with Some d => bytes_eqb d v | None => false end)
+                                 (i_headers i ++ i_query i)) (snd kv)
+  else true.
+
 Definition prop_c07 (input impl : val) : option Z :=
   let i := parse_c07 input in
   let out := as_md (nthv 0 impl) in
   let cli := as_pairs (nthv 1 impl) in
   if existsb (fun kv => bytes_eqb (fst kv) (lower timeout_key)) out then Some 2%Z
+  else if negb (forallb (bin_values_decoded i) out) then Some 5%Z
   else if negb (forallb (fun kv => req_key_ok i (fst kv)) out) then
     (match i_allow_req i with [] => Some 4%Z | _ => Some 1%Z end)
   else if negb (forallb (fun kv => resp_pair_ok (i_allow_resp i) (i_prefix_resp i) (i_target_hdr i) kv ||
